@@ -175,8 +175,12 @@ func c01Model(sc qScenario, m qMsg) map[string]*c01Fate {
 					}
 				}
 				if !allFailed && plan.Commit != nil {
+					// a recipient that already has a permanent failure of its own (per-recipient status) keeps it: it is
+					// "re-attempted only after a temporary or unclassified failure, never after ... permanent failure"
 					for _, r := range accepted {
-						errs[r] = plan.Commit
+						if errs[r] == nil || c01Retryable(errs[r]) {
+							errs[r] = plan.Commit
+						}
 					}
 				}
 			}
